@@ -25,7 +25,8 @@ from .data import (Calendar, TimePoint,
                    get_timepoint_for_now as now2point)
 from .dumpers import TimePointDumper
 from .parsers import TimePointParser, DurationParser, TimeRecurrenceParser
-from metomi.isodatetime.exceptions import OffsetValueError
+from metomi.isodatetime.exceptions import (
+    OffsetValueError, StrftimeSyntaxError)
 
 
 class DateTimeOperator(object):
@@ -242,7 +243,11 @@ class DateTimeOperator(object):
         try:
             return self.time_point_parser.strptime(
                 time_point_str, parse_format)
-        except ValueError:
+        except StrftimeSyntaxError:
+            # The format has directives only the datetime library knows.
+            # N.B. Do not fall back if the format is supported but the string
+            # does not match it: time.strptime is lenient about field widths
+            # and reads e.g. 20160229T0631 with %Y%m%dT%H%M%S as 06:03:01.
             return self.get_datetime_strptime(time_point_str, parse_format)
 
     @staticmethod
